@@ -1,10 +1,11 @@
 package vuego
 
 import (
-	"sync"
 	"bytes"
+	"fmt"
 	"io/fs"
 	"strings"
+	"sync"
 
 	"github.com/titpetric/lessgo/dst"
 	"github.com/titpetric/lessgo/renderer"
@@ -99,6 +100,46 @@ func (lp *LessProcessor) isLessStyleTag(node *html.Node) bool {
 	return false
 }
 
+// maxLessImportDepth bounds the nesting of @import (like the include and layout limits): the LESS
+// library follows imports recursively, a file that imports itself would exhaust the stack.
+const maxLessImportDepth = 100
+
+// lessImportFS is the file system the LESS library reads imports from. It counts the files that
+// are open at the same time - an imported file stays open while its own imports are read - and
+// refuses to go deeper than maxLessImportDepth.
+type lessImportFS struct {
+	fs.FS
+	depth    int
+	exceeded bool
+}
+
+func (l *lessImportFS) Open(name string) (fs.File, error) {
+	if l.depth >= maxLessImportDepth {
+		l.exceeded = true
+		return nil, fmt.Errorf("open %s: @import nesting too deep", name)
+	}
+	f, err := l.FS.Open(name)
+	if err != nil {
+		return nil, err
+	}
+	l.depth++
+	return &lessImportFile{File: f, fsys: l}, nil
+}
+
+type lessImportFile struct {
+	fs.File
+	fsys   *lessImportFS
+	closed bool
+}
+
+func (f *lessImportFile) Close() error {
+	if !f.closed {
+		f.closed = true
+		f.fsys.depth--
+	}
+	return f.File.Close()
+}
+
 // lessMu serialises the calls into the LESS library (see compileLessTag).
 var lessMu sync.Mutex
 
@@ -123,13 +164,18 @@ func (lp *LessProcessor) compileLessTag(styleNode *html.Node) error {
 
 	// Parse and compile LESS to CSS
 	parser := dst.NewParser(bytes.NewReader([]byte(lessContent)))
+	var imports *lessImportFS
 	if lp.fs != nil {
-		parser = dst.NewParserWithFS(bytes.NewReader([]byte(lessContent)), lp.fs)
+		imports = &lessImportFS{FS: lp.fs}
+		parser = dst.NewParserWithFS(bytes.NewReader([]byte(lessContent)), imports)
 	}
 
 	file, err := parser.Parse()
 	if err != nil {
 		return &LessProcessorError{Err: err, Reason: "failed to parse LESS"}
+	}
+	if imports != nil && imports.exceeded {
+		return &LessProcessorError{Err: fmt.Errorf("@import nesting exceeded maximum of %d, possible circular import", maxLessImportDepth), Reason: "failed to parse LESS"}
 	}
 
 	// Render LESS to CSS
